@@ -326,7 +326,15 @@ func (pl *Pool) race(kinds []string, q *Query, ms int) Result {
 func (pl *Pool) Check(q *Query, quickMs, slowMs int) Result {
 	atomic.AddInt64(&stats.Queries, 1)
 	pl.session = nil
-	r := pl.race([]string{"z3new", "z3"}, q, quickMs)
+	// stage 0: most queries are answered by z3 5.x within milliseconds; racing (and killing
+	// the loser) only pays off for the hard ones
+	r, p0 := pl.runOne("z3new", q, 250)
+	if r == Sat {
+		pl.session = p0
+	}
+	if r == Unknown {
+		r = pl.race([]string{"z3new", "z3"}, q, quickMs)
+	}
 	if r == Unknown && slowMs > 0 {
 		r = pl.race([]string{"z3new", "z3", "cvc5", "cvc5int"}, q, slowMs)
 	}
